@@ -16,9 +16,10 @@ import PyttbModel.Driver.C08
 import PyttbModel.Driver.C05
 import PyttbModel.Driver.C13
 import PyttbModel.Driver.C12
+import PyttbModel.Driver.C06
 open Lean Pyttb Pyttb.Codec Pyttb.Driver
 
-def allOps : List (String × Op) := ops17 ++ ops07 ++ ops01 ++ ops16 ++ ops03 ++ C04.ops04 ++ ops11 ++ ops20 ++ ops02 ++ C19.ops19 ++ ops09 ++ ops14 ++ ops18 ++ ops15 ++ ops10 ++ ops08 ++ ops05 ++ ops13 ++ ops12
+def allOps : List (String × Op) := ops17 ++ ops07 ++ ops01 ++ ops16 ++ ops03 ++ C04.ops04 ++ ops11 ++ ops20 ++ ops02 ++ C19.ops19 ++ ops09 ++ ops14 ++ ops18 ++ ops15 ++ ops10 ++ ops08 ++ ops05 ++ ops13 ++ ops12 ++ ops06
 
 def handle (line : String) : String :=
   match Json.parse line with
